@@ -498,6 +498,14 @@ func GenC11(rng *rand.Rand, thorough bool, emit func(*Sx)) {
 		}
 	}
 
+	// the RFC 5321 special case "<Postmaster>" (RCPT only) and its neighbours, for both verbs
+	for _, verb := range verbs {
+		for _, pm := range []string{"<postmaster>", "<Postmaster>", "<POSTMASTER>", "<postmaster@d.example>", "<postmaster@>", "<webmaster>", "<postmasterx>",
+			"<@a:postmaster>", "postmaster", "<postmaster >", "< postmaster>", "<postmaster> SIZE=10", "<postmaster> NOTIFY=NEVER", "<Postmaster> BODY=7BIT", "<\"postmaster\">"} {
+			emit(RunC11(c11AllOn(), verb, prefix[verb]+pm))
+			emit(RunC11(DefaultCfg(), verb, prefix[verb]+pm))
+		}
+	}
 	// a line is judged on its own: lines refused just before it on the same connection (refused for a
 	// parameter that comes AFTER well-formed ones, for an unknown or a disabled parameter) leave nothing behind
 	preMail := []string{"MAIL FROM:<x@y> SIZE=4096 ENVID=QQ314159 BODY==", "MAIL FROM:<x@y> SMTPUTF8 RET=FULL A=B=C",
